@@ -121,3 +121,55 @@ func c12AfterAFailedImport(res *Result) {
 		}
 	}
 }
+
+// c12MacrosReachedFromIncludes: a partial included from a macro body (or from the page) calls, by its plain name, a
+// macro the page imported or defined. Whether the include passes variables of its own makes no difference to which
+// macros the partial reaches: `include 'p' with {...}` gives what `include 'p'` gives when the same variables are in scope.
+func c12MacrosReachedFromIncludes(res *Result) {
+	const icons = `{% macro icon(n, size = 16) %}<i class="{{ n }}" s="{{ size }}"></i>{% endmacro %}`
+	sites := []struct{ name, open, close string }{
+		{"page", "", ""},
+		{"macro-body", "{% macro card(t) %}", "{% endmacro %}{{ card('A') }}"},
+		{"macro-body-self", "{% macro card(t) %}", "{% endmacro %}{{ _self.card('A') }}"},
+		{"loop-in-macro-body", "{% macro card(t) %}{% for q in [1, 2] %}", "{% endfor %}{% endmacro %}{{ card('A') }}"},
+		{"if-in-macro-body", "{% macro card(t) %}{% if t %}", "{% endif %}{% endmacro %}{{ card('A') }}"},
+		{"macro-in-macro", "{% macro inner(t) %}", "{% endmacro %}{% macro card(t) %}{{ _self.inner(t) }}{% endmacro %}{{ card('A') }}"},
+	}
+	imports := []struct{ name, src, call string }{
+		{"from", "{% from 'icons' import icon %}", "icon"}, {"from-alias", "{% from 'icons' import icon as ico %}", "ico"},
+		{"own-macro", "{% macro icon(n, size = 16) %}<i class=\"{{ n }}\" s=\"{{ size }}\"></i>{% endmacro %}", "icon"},
+	}
+	includes := []struct{ name, tag string }{
+		{"plain", "{% include 'head' %}"}, {"with", "{% include 'head' with {'t': t} %}"}, {"with-extra", "{% include 'head' with {'t': t, 'extra': 1} %}"},
+		{"with-ignore-missing", "{% include 'head' ignore missing with {'t': t} %}"},
+	}
+	for _, im := range imports {
+		for _, st := range sites {
+			var ref string
+			for _, inc := range includes {
+				e := twig.New()
+				e.RegisterString("icons", icons)
+				e.RegisterString("head", "<h2>{{ "+im.call+"('star') }} {{ t }}</h2>")
+				main := im.src + st.open + "<section>" + inc.tag + "</section>" + st.close
+				if e.RegisterString("main", main) != nil {
+					continue
+				}
+				res.Hist["stream:c12-macros-reached-from-includes"]++
+				res.Evaluations++
+				got, err := e.Render("main", map[string]interface{}{"t": "A"})
+				if err != nil {
+					got = "error: " + err.Error()
+				}
+				if inc.name == "plain" {
+					ref = got
+					continue
+				}
+				if got != ref {
+					res.add(Finding{Kind: "oracle", Where: "c12-macros-reached-from-includes/" + st.name + "/" + inc.name, Case: Case{"stream": "c12-macros-reached-from-includes", "main": main, "import": im.name},
+						Expected: ref, Observed: got, Detail: "the same partial, included without variables of its own, gives the expected output: the macro is reached from it"})
+					break
+				}
+			}
+		}
+	}
+}
